@@ -188,6 +188,20 @@ Section Proper.
     exact (run_ops_ind RNum tiny infty nE ep ec nB bj bk nN lo hi Orc project (fun so1 => Proper (fst so1)) shape_is
              run_op_proper ops so so' HQ H HP). Qed.
 
+  Lemma iterate_proper block_order edge_order blik elik free s mx rt regularise so so' :
+    iterate RNum tiny infty nE ep ec nB bj bk nN lo hi Orc project block_order edge_order blik elik
+      free S s mx rt regularise so = Some so' -> Proper (fst so) -> Proper (fst so').
+  Proof. rewrite iterate_as_ops. apply run_ops_proper.
+    repeat constructor; destruct regularise; repeat constructor. Qed.
+
+  Lemma iterate_n_proper block_order edge_order blik elik free s mx rt regularise k : forall so so',
+    iterate_n RNum tiny infty nE ep ec nB bj bk nN lo hi Orc project block_order edge_order blik elik
+      free S s mx rt regularise k so = Some so' -> Proper (fst so) -> Proper (fst so').
+  Proof. induction k as [|k IH]; intros so so' H HP; cbn [iterate_n] in H.
+    - inversion H; subst; exact HP.
+    - match type of H with obind ?a _ = _ => destruct a as [so1|] eqn:E end; cbn [obind] in H; [|discriminate].
+      eapply IH; [exact H|]. eapply iterate_proper; eassumption. Qed.
+
   (** mean, variance and shape of a proper, updated posterior *)
   Lemma proper_moments (st : Rstate) u : proper S (post st u) -> post st u <> (0, 0) ->
     eqb RNum (lo u) (hi u) = false ->
